@@ -177,6 +177,14 @@ def _validator(L, valid: Func):
                     def sub(s):
                         return s.replace(var, cur) if (var and cur) else s
 
+                    if isinstance(t, ast.Name):
+                        # a flag holding the answer of an earlier test on this path (found = idx_file.exists())
+                        from ..util import resolve_on_path as _rop0
+
+                        t0 = _rop0(p, p.events.index(e), t)
+                        if isinstance(t0, ast.Call) and isinstance(t0.func, ast.Attribute) and t0.func.attr in ("exists", "is_file"):
+                            t = t0
+                            txt = norm(t)
                     if isinstance(t, ast.Call) and isinstance(t.func, ast.Attribute) and t.func.attr in ("exists", "is_file"):
                         facts.setdefault(sub(norm(t.func.value)), set()).add(("exists", v))
                     elif isinstance(t, ast.Compare) and len(t.ops) == 1 and isinstance(t.ops[0], ast.Gt | ast.GtE | ast.Lt | ast.LtE):
